@@ -1270,6 +1270,9 @@ func checkBounds(c *Ctx, rule string, fns []*ssa.Function, table map[string]stri
 				}
 			}
 		}
+		// a precondition on a parameter travels with it into a helper the code was moved into: a helper parameter that is
+		// handed the assumed parameter itself inherits the assumption (relative to the helper's own view of the receiver)
+		b.inheritAssumptions(fn, 0)
 		for _, in := range instrs(fn) {
 			var X, idx ssa.Value
 			var what string
@@ -1337,7 +1340,7 @@ func checkBounds(c *Ctx, rule string, fns []*ssa.Function, table map[string]stri
 			if !(okUp && okLo) && isTransparent(in.Parent()) {
 				// the expression sits in a helper the code was moved into: decide it in the context of every call site,
 				// with the helper's parameters standing for the arguments handed in
-				if u2, l2, dec := boundsAtCallSites(c, in.Parent(), X, idx); dec {
+				if u2, l2, dec := boundsAtCallSites(c, b, in.Parent(), X, idx); dec {
 					okUp, okLo, decidedInContext = u2, l2, true
 				}
 			}
@@ -1547,7 +1550,7 @@ var lenPreserveCache = map[*ssa.Function]int{}
 
 // boundsAtCallSites decides X[idx] of a looked-through helper at each of its static call sites: a parameter of the
 // helper stands for the argument of the call, a constant for itself; anything else is not attempted.
-func boundsAtCallSites(c *Ctx, helper *ssa.Function, X, idx ssa.Value) (okUp, okLo, decided bool) {
+func boundsAtCallSites(c *Ctx, cur *bctx, helper *ssa.Function, X, idx ssa.Value) (okUp, okLo, decided bool) {
 	if curProg == nil || curProg.ti == nil {
 		return false, false, false
 	}
@@ -1555,7 +1558,8 @@ func boundsAtCallSites(c *Ctx, helper *ssa.Function, X, idx ssa.Value) (okUp, ok
 	if len(sites) == 0 {
 		return false, false, false
 	}
-	subst := func(v ssa.Value, call *ssa.CallCommon) (ssa.Value, bool) {
+	subst := func(v ssa.Value, site ssa.CallInstruction) (ssa.Value, bool) {
+		call := site.Common()
 		switch x := v.(type) {
 		case *ssa.Const:
 			return x, true
@@ -1563,6 +1567,29 @@ func boundsAtCallSites(c *Ctx, helper *ssa.Function, X, idx ssa.Value) (okUp, ok
 			for i, prm := range helper.Params {
 				if prm == x && i < len(call.Args) {
 					return call.Args[i], true
+				}
+			}
+		case *ssa.UnOp:
+			// a field of a parameter (recv.bc): the same field of the argument, as the caller reads it
+			fa, isFA := x.X.(*ssa.FieldAddr)
+			prm, isP := (ssa.Value)(nil), false
+			if isFA && x.Op == token.MUL {
+				_, isP = fa.X.(*ssa.Parameter)
+				prm = fa.X
+			}
+			if !isP {
+				return nil, false
+			}
+			for i, hp := range helper.Params {
+				if ssa.Value(hp) != prm || i >= len(call.Args) {
+					continue
+				}
+				for _, cin := range ownInstrs(site.Parent()) {
+					if ld, ok := cin.(*ssa.UnOp); ok && ld.Op == token.MUL {
+						if cfa, ok2 := ld.X.(*ssa.FieldAddr); ok2 && cfa.Field == fa.Field && sameVal(cfa.X, call.Args[i]) {
+							return ld, true
+						}
+					}
 				}
 			}
 		}
@@ -1574,12 +1601,15 @@ func boundsAtCallSites(c *Ctx, helper *ssa.Function, X, idx ssa.Value) (okUp, ok
 		if caller == nil || isTransparent(caller) {
 			return false, false, false // (one level only)
 		}
-		cx, ok1 := subst(X, site.Common())
-		ci, ok2 := subst(idx, site.Common())
+		cx, ok1 := subst(X, site)
+		ci, ok2 := subst(idx, site)
 		if !ok1 || !ok2 {
 			return false, false, false
 		}
 		cb := &bctx{c: c, fn: caller, assumeNonNeg: map[*ssa.Parameter]bool{}, assumeLT: map[ltAssume]bool{}}
+		if cur != nil && cur.fn == caller {
+			cb = cur // the function under examination: with its stated preconditions
+		}
 		if !cb.lt(ci, cx, site) {
 			okUp = false
 		}
@@ -1587,7 +1617,10 @@ func boundsAtCallSites(c *Ctx, helper *ssa.Function, X, idx ssa.Value) (okUp, ok
 			okLo = false
 		}
 	}
-	return okUp, okLo, true
+	// a failure is a verdict only when the index is a constant (b[0] of a possibly empty b): an index computed by the
+	// caller may be covered by the caller's reviewed invariants, which this contextual proof does not consult
+	_, constIdx := idx.(*ssa.Const)
+	return okUp, okLo, (okUp && okLo) || constIdx
 }
 
 // decidedInContext: the bounds obligation being emitted sits in a looked-through helper but was decided at its call
@@ -1652,5 +1685,73 @@ func sliceBoundsAtCallSites(c *Ctx, helper *ssa.Function, x *ssa.Slice) (okHigh,
 			okLow = false
 		}
 	}
-	return okHigh, okLow, true
+	constBounds := true
+	for _, v := range []ssa.Value{x.Low, x.High} {
+		if v != nil {
+			if _, isK := v.(*ssa.Const); !isK {
+				constBounds = false
+			}
+		}
+	}
+	return okHigh, okLow, (okHigh && okLow) || constBounds
+}
+
+func (b *bctx) inheritAssumptions(caller *ssa.Function, depth int) {
+	if depth > 3 {
+		return
+	}
+	for _, in := range ownInstrs(caller) {
+		h := transparentCallee(in)
+		if h == nil {
+			continue
+		}
+		call := in.(*ssa.Call)
+		args := call.Call.Args
+		changed := false
+		for i, arg := range args {
+			prm, ok := arg.(*ssa.Parameter)
+			if !ok || i >= len(h.Params) {
+				continue
+			}
+			if b.assumeNonNeg[prm] && !b.assumeNonNeg[h.Params[i]] {
+				b.assumeNonNeg[h.Params[i]] = true
+				changed = true
+			}
+			for lt := range b.assumeLT {
+				if lt.p != prm {
+					continue
+				}
+				// lt.x is a load *(&recv.field) in the caller; which helper parameter is that receiver
+				ld, isLd := lt.x.(*ssa.UnOp)
+				if !isLd {
+					continue
+				}
+				fa, isFA := ld.X.(*ssa.FieldAddr)
+				if !isFA {
+					continue
+				}
+				for j, a2 := range args {
+					if a2 != fa.X || j >= len(h.Params) {
+						continue
+					}
+					for _, hin := range ownInstrs(h) {
+						hld, ok := hin.(*ssa.UnOp)
+						if !ok {
+							continue
+						}
+						if hfa, isH := hld.X.(*ssa.FieldAddr); isH && hfa.X == ssa.Value(h.Params[j]) && hfa.Field == fa.Field {
+							k := ltAssume{h.Params[i], hld}
+							if !b.assumeLT[k] {
+								b.assumeLT[k] = true
+								changed = true
+							}
+						}
+					}
+				}
+			}
+		}
+		if changed {
+			b.inheritAssumptions(h, depth+1)
+		}
+	}
 }
